@@ -79,6 +79,9 @@ type Case struct {
 	Paths []kit.BStr `json:"paths"`
 	Perms [][]int    `json:"perms,omitempty"` // alternative insertion orders
 	Large bool       `json:"large,omitempty"` // large table: a capacity error of Build is not a violation
+	// SizeHint presets the router's exported SizeHint field before Build (0 = leave the default -1, n>0 = preset n-1):
+	// it is documented as a capacity hint, so it must not change any answer.
+	SizeHint int `json:"size_hint,omitempty"`
 }
 
 // match is the naive matcher: does path instantiate p, and with which texts (empty texts allowed)?
@@ -184,7 +187,7 @@ func lookup(r *denco.Router, path string) (a answer, v *kit.Violation) {
 	return a, v
 }
 
-func build(pats []Pat, order []int) (*denco.Router, error, *kit.Violation) {
+func build(pats []Pat, order []int, sizeHint int) (*denco.Router, error, *kit.Violation) {
 	recs := make([]denco.Record, 0, len(pats))
 	if order == nil {
 		for i, p := range pats {
@@ -195,10 +198,41 @@ func build(pats []Pat, order []int) (*denco.Router, error, *kit.Violation) {
 			recs = append(recs, denco.NewRecord(pats[i].Key(), i))
 		}
 	}
+	before := append([]denco.Record(nil), recs...)
 	r := denco.New()
+	if sizeHint > 0 {
+		r.SizeHint = sizeHint - 1
+	}
 	var err error
 	v := kit.Guard("Router.Build", func() { err = r.Build(recs) })
+	if v == nil && err == nil {
+		// the records belong to the caller: Build must leave them as they were (an application builds one router per
+		// method, or rebuilds after a change, from the same slice)
+		for i := range recs {
+			if recs[i].Key != before[i].Key || recs[i].Value != before[i].Value {
+				return r, nil, kit.Failf("RECORDS-MODIFIED: Build changed the caller's record %d from %q to %q", i, before[i].Key, recs[i].Key)
+			}
+		}
+	}
 	return r, err, v
+}
+
+// rebuild builds a second router from the very slice a first Build has already seen.
+func rebuild(pats []Pat) (*denco.Router, error, *kit.Violation) {
+	recs := make([]denco.Record, 0, len(pats))
+	for i, p := range pats {
+		recs = append(recs, denco.NewRecord(p.Key(), i))
+	}
+	var r2 *denco.Router
+	var err error
+	v := kit.Guard("Router.Build twice from one slice", func() {
+		if err = denco.New().Build(recs); err != nil {
+			return
+		}
+		r2 = denco.New()
+		err = r2.Build(recs)
+	})
+	return r2, err, v
 }
 
 func keys(pats []Pat) []string {
@@ -214,7 +248,7 @@ func keys(pats []Pat) []string {
 
 // Check compares the router with the naive matcher on every path of the case.
 func Check(c Case) *kit.Violation {
-	r, err, v := build(c.Pats, nil)
+	r, err, v := build(c.Pats, nil, c.SizeHint)
 	if v != nil {
 		return v
 	}
@@ -224,12 +258,16 @@ func Check(c Case) *kit.Violation {
 		}
 		return kit.Failf("BUILD rejected a valid pattern set %q: %v", keys(c.Pats), err)
 	}
-	var others []*denco.Router
+	type other struct {
+		r     *denco.Router
+		label string
+	}
+	var others []other
 	for _, perm := range c.Perms {
 		if len(perm) != len(c.Pats) {
 			continue
 		}
-		o, err, v := build(c.Pats, perm)
+		o, err, v := build(c.Pats, perm, 0)
 		if v != nil {
 			return v
 		}
@@ -239,7 +277,12 @@ func Check(c Case) *kit.Violation {
 			}
 			return kit.Failf("BUILD accepted the set in one order and rejected it in order %v: %q: %v", perm, keys(c.Pats), err)
 		}
-		others = append(others, o)
+		others = append(others, other{o, fmt.Sprintf("insertion order %v", perm)})
+	}
+	if rb, err, v := rebuild(c.Pats); v != nil {
+		return v
+	} else if err == nil && rb != nil {
+		others = append(others, other{rb, "a second Build from the slice a first Build was given"})
 	}
 	var mux http.Handler
 	var muxHit *answer
@@ -270,13 +313,13 @@ func Check(c Case) *kit.Violation {
 		if v := judge(c.Pats, path, got); v != nil {
 			return v
 		}
-		for i, o := range others {
-			og, v := lookup(o, path)
+		for _, o := range others {
+			og, v := lookup(o.r, path)
 			if v != nil {
-				return kit.Failf("pats=%q order=%v path=%q: %s", keys(c.Pats), c.Perms[i], path, v.Msg)
+				return kit.Failf("pats=%q %s path=%q: %s", keys(c.Pats), o.label, path, v.Msg)
 			}
 			if !sameAnswer(got, og) {
-				return kit.Failf("ORDER-DEPENDENT pats=%q path=%q: given order -> %v, order %v -> %v", keys(c.Pats), path, got, c.Perms[i], og)
+				return kit.Failf("BUILD-DEPENDENT pats=%q path=%q: given order -> %v, %s -> %v", keys(c.Pats), path, got, o.label, og)
 			}
 		}
 		if mux != nil {
@@ -388,7 +431,15 @@ func genValue(t *rapid.T, label string) string {
 	return string(b)
 }
 
+// literals of patterns are byte strings too: the trie is built bytewise, so non-ASCII literals are ordinary patterns
+// (only the router's own reserved bytes and '/' are excluded from literals). Valid UTF-8 only, so that a case
+// survives JSON; looked-up paths carry arbitrary bytes anyway.
+var exoticLits = []string{"é", "caf\u00e9", "日本", "ｃ", "ü.", "\u00ff", "\u00fd", "C", "c"}
+
 func genLit(t *rapid.T, vocab []string) string {
+	if rapid.IntRange(0, 7).Draw(t, "exotic") == 0 {
+		return rapid.SampledFrom(exoticLits).Draw(t, "xlit")
+	}
 	if len(vocab) > 0 {
 		return rapid.SampledFrom(vocab).Draw(t, "lit")
 	}
@@ -517,6 +568,7 @@ func GenSmall(t *rapid.T) Case {
 		c.Paths = append(c.Paths, kit.BStr(genPath(t, pats, nil)))
 	}
 	c.Perms = genPerms(t, len(pats), 3)
+	c.SizeHint = rapid.SampledFrom([]int{0, 0, 0, 1, 2, 4, 9}).Draw(t, "sizehint")
 	return c
 }
 
